@@ -67,6 +67,13 @@ def _q6(ea, eb, ec, ms, ma, mb, mc, ja, jb, f0, f1, f2, now0, pert, tp):
         return q.SKIP
     for s in pr.sources:
         pr.w.file(s, ms, "source")
+    if sh.get("linked_src"):
+        # every source is a symbolic link (created long ago) to raw data kept elsewhere; what counts is the data's time
+        pr.w.vfs.dirs.add("/vfs/raw")
+        for s in pr.sources:
+            pr.w.vfs.files["/vfs/raw/" + s] = pr.w.vfs.files.pop(ROOT + "/" + s)
+            pr.w.vfs.links[ROOT + "/" + s] = "/vfs/raw/" + s
+            pr.w.vfs.link_mtime[ROOT + "/" + s] = 0
     ex = [ea, eb, ec, False]
     mt = [ma, mb, mc, 0]
     for i in range(pr.n):
@@ -114,7 +121,7 @@ def _q6(ea, eb, ec, ms, ma, mb, mc, ja, jb, f0, f1, f2, now0, pert, tp):
         perts = [("none", None)] + [("touch", s) for s in pr.sources] + [("delete", o) for i in range(pr.n) for o in pr.outputs[i]]
         kind, rel = q.pick(perts, pert)
         if kind == "touch":
-            w.vfs.files[ROOT + "/" + rel][0] = tp
+            w.vfs.files[w.vfs.links.get(ROOT + "/" + rel, ROOT + "/" + rel)][0] = tp
             hit = [i for i in range(pr.n) if rel in pr.inputs[i]]
         else:
             del w.vfs.files[ROOT + "/" + rel]
@@ -159,12 +166,12 @@ QUERIES = [
                          + [{"shape": "join3", "be": "slurm", "earlier": False, "fresh": True, "pert": p} for p in range(6)]
                          + [{"shape": "chain2", "be": "local", "earlier": False, "fresh": True}, {"shape": "chain2+sink", "be": "slurm", "earlier": False, "fresh": True},
                             {"shape": "chain2", "be": "sge", "earlier": False, "fresh": True}, {"shape": "chain2", "be": "lsf", "earlier": False, "fresh": True},
-                            {"shape": "chain2u", "be": "slurm", "earlier": False, "fresh": True}, {"shape": "tri-rev", "be": "slurm", "earlier": False, "fresh": True, "pert": 0}, {"shape": "tri-rev", "be": "slurm", "earlier": False, "fresh": True, "pert": 1}],
+                            {"shape": "chain2u", "be": "slurm", "earlier": False, "fresh": True}, {"shape": "chain2", "be": "slurm", "earlier": False, "fresh": True, "linked_src": True}, {"shape": "tri-rev", "be": "slurm", "earlier": False, "fresh": True, "pert": 0}, {"shape": "tri-rev", "be": "slurm", "earlier": False, "fresh": True, "pert": 1}],
                 "thorough": [{"shape": "chain2", "be": b, "ja": a, "jb": jb_, "hashing": h} for b in ("slurm", "sge", "lsf", "local") for a in range(4) for jb_ in range(4) for h in (False, True)]
                             + [{"shape": "chain2", "be": "slurm", "ja": a, "jb": jb_, "hashing": True, "edited": e} for a in (0, 3) for jb_ in (0, 3) for e in ("A", "B", True)]
                             + [{"shape": s, "be": b, "earlier": False, "pert": p} for s, np in (("fork3", 5), ("join3", 6), ("chain3", 5)) for b in ("slurm", "local") for p in range(np)]
                             + [{"shape": "chain2+sink", "be": b, "earlier": False} for b in ("slurm", "local")] + [{"shape": "diamond4", "be": "slurm", "earlier": False, "fresh": True, "pert": p} for p in range(6)]},
      "timeout": {"quick": 1500, "thorough": 3600},
      "bound": "chain of 2 with earlier job states of A and B in {none, failed, cancelled, completed} (4 combinations quick, all 16 thorough), existence and modification time (symbolic int) of every file, finish time of every job (symbolic int under the scheduler contract), "
-              "one perturbation (touch of any source with a symbolic later time / deletion of any output) and the following run; fork and join on 3 targets, a triangle with a shortcut edge, a chain whose intermediate file has a decomposed (NFD) name, chain + output-less sink and chain of 2 on SGE/LSF/pool from a fresh project (no outputs yet) in quick; spec hashing with the recorded hash of every / only the first / only the second target outdated; arbitrary initial files for those shapes, all backends, hashing, diamond in thorough"},
+              "one perturbation (touch of any source with a symbolic later time / deletion of any output) and the following run; fork and join on 3 targets, a triangle with a shortcut edge, a chain whose intermediate file has a decomposed (NFD) name, a chain whose source is a symbolic link to data kept elsewhere, chain + output-less sink and chain of 2 on SGE/LSF/pool from a fresh project (no outputs yet) in quick; spec hashing with the recorded hash of every / only the first / only the second target outdated; arbitrary initial files for those shapes, all backends, hashing, diamond in thorough"},
 ]
